@@ -11,3 +11,5 @@ import Xrfmv.Props.C02
 #print axioms Xrfmv.Props.C02.ridge_exists_unique_sumPower
 #print axioms Xrfmv.Props.C02.ridge_matrix_posDef
 #print axioms Xrfmv.Props.C02.ridge_matrix_posDef_lpq
+#print axioms Xrfmv.Props.C02.gen_every_solver_branch_solves_the_ridge_system
+#print axioms Xrfmv.Props.C02.gen_solvers_return_the_ridge_solution
